@@ -10,11 +10,14 @@ def harness(c, n, replay_ops=None):
 
 
 def run(c):
+    # T1: directive case lists, first-declaration-wins guards, the completeness refusal and the lookup order,
+    # regenerated from the current tree; Props/C04 compares them with Expect/Pipeline.lean
+    c.extract("pipeline", "Pipeline.lean")
     c.lean("C04")
     if c.replay:
         harness(c, 1, replay_ops=c.replay.get("replay_ops") or [])
     else:
-        harness(c, 60000 if c.thorough else 2500)
+        harness(c, 60000 if c.thorough else 5000)
 
     def search():
         c.seed += 1000
